@@ -63,7 +63,28 @@ def _run_one(m, tier):
         shutil.rmtree(scratch, ignore_errors=True)
 
 
+def benign(names):
+    """Behaviour-preserving refactors: all 20 quick checks must exit 0 on each of them."""
+    sys.path.insert(0, os.path.join(VERIF, "mutants"))
+    import catalog  # type: ignore
+
+    cat = [dict(m, prop=["C%02d" % i for i in range(1, 21)]) for m in catalog.BENIGN if not names or any(n in m["id"] for n in names)]
+    with ThreadPoolExecutor(max_workers=4) as ex:
+        results = list(ex.map(lambda m: _run_one(m, "quick"), cat))
+    ok = True
+    for r in results:
+        bad = {p: v for p, v in r.get("checks", {}).items() if v["exit"] != 0}
+        print(f"{r['id']:40s} {'silent on all 20 checks' if not bad and 'error' not in r else 'ALARM ' + json.dumps(bad)[:600] + r.get('error', '')}"
+              + ("" if r.get("tests_pass", True) else " [breaks pinned tests]"))
+        ok = ok and not bad and "error" not in r
+    with open(os.path.join(VERIF, "mutants", "BENIGN_RESULTS.json"), "w") as f:
+        json.dump(results, f, indent=1)
+    return 0 if ok else 1
+
+
 def main(names, tier="quick"):
+    if names and names[0] == "benign":
+        return benign(names[1:])
     cat = load_catalog()
     if names:
         cat = [m for m in cat if m["id"] in names or m["prop"] in names or any(n in m["id"] for n in names)]
